@@ -48,7 +48,7 @@ def floors(tier):
          "thread_validations": 5000, "thread_runs_20plus_switches": 50, "observed_switches": 2000,
          "distinct_interleaving_signatures": 50}
     for k in ("refs", "remote", "regex", "format", "types", "same-schema-object", "verdicts", "dollar-schema", "decimal", "handed-on-store", "custom-scheme-root"):
-        f["collision:" + k] = 60
+        f["collision:" + k] = 25
     return f
 
 
